@@ -764,3 +764,38 @@ Example ex_fifo :
 Proof.
   cbn. unfold fifo. cbn. repeat split; auto; try (intros y; apply slowb_nil).
 Qed.
+
+(** * 9. At every moment: what a layer has emitted is a prefix of what it will have emitted
+    (no duplicate, no re-ordering, at any point of any loss-free schedule). *)
+
+Lemma fold_runf_pushes p : forall b st,
+  exists extra, snd (fst (fold_left (runf p) b st)) = snd (fst st) ++ extra.
+Proof.
+  induction b as [|x b IH]; intros st; cbn [fold_left].
+  - exists []. now rewrite app_nil_r.
+  - destruct (IH (runf p st x)) as [e He]. rewrite He.
+    destruct st as [[h q] e0]. unfold runf. destruct (peff p h x) as [[h' ps] er]. cbn [fst snd].
+    exists (ps ++ e). now rewrite app_assoc.
+Qed.
+
+Lemma pushes_app_prefix p a b : exists extra, pushes p (a ++ b) = pushes p a ++ extra.
+Proof.
+  Transparent run. unfold pushes, run. rewrite fold_left_app. apply fold_runf_pushes. Opaque run.
+Qed.
+
+Definition specQ (c : lcfg) (I : list N) : list res :=
+  match c with Single p => pushes p I | Comp p1 p2 => pushes p2 (oks (pushes p1 I)) end.
+
+Theorem prefix_any_time c up l :
+  SInv (Lay c up l) -> lost l = [] -> exists rest, specQ c (ins l) = projQ (emitted l) ++ rest.
+Proof.
+  intros (_ & [Iins _ _ Ihist Irest] & _) Hl.
+  rewrite Iins. destruct (pushes_app_prefix (firstp c) (done1 l) (cur (tk l) ++ inq l)) as [e1 E1].
+  assert (HQ : projQ (hist l) = projQ (emitted l) ++ projQ (outq l)) by (rewrite Ihist; apply projQ_app).
+  destruct c as [p|p1 p2]; cbn [LRest firstp specQ] in *.
+  - destruct Irest as (A & _). rewrite E1, A, HQ. rewrite <- !app_assoc. eauto.
+  - destruct Irest as (A & _ & _ & D & _ & F & _). specialize (F Hl).
+    rewrite E1, A, !oks_app, F. rewrite <- !app_assoc.
+    destruct (pushes_app_prefix p2 (done2 l) (infl (tk l) ++ oks (q1 l) ++ oks e1)) as [e2 E2].
+    rewrite E2, D, HQ. rewrite <- !app_assoc. eauto.
+Qed.
